@@ -5,6 +5,7 @@
 //!   evalimm <hex expr> [<name>=<value>]...  same through the read-only entry point
 //!   tree <hex expr>                         build_operator_tree, print the tree (Debug)
 //!   typed <hex expr> [<name>=<value>]...    the seven typed string entry points (mutable context), all results
+//!   api <op>:<hex arg> ...                  scripted use of one HashMapContext (set/eval/clear*/disable/enable/save/swap/deff)
 //!   iter <hex expr>                         identifier iterators of the built tree, in order
 //! value := int:<i64> | float:<u64 bits> | bool:<0|1> | str:<hex> | empty | tuple:<value>;<value>...
 use evalexpr::*;
@@ -58,6 +59,52 @@ fn main() {
                 { let c = ctx(&f[2..]); out.push(format!("number_imm={:?}", eval_number_with_context(&e, &c))); }
                 { let c = ctx(&f[2..]); out.push(format!("int_imm={:?}", eval_int_with_context(&e, &c))); }
                 out.push(format!("number_fresh={:?} int_fresh={:?} string_fresh={:?}", eval_number(&e), eval_int(&e), eval_string(&e)));
+                // the same through a precompiled tree (context-free, shared and mutable forms)
+                match build_operator_tree::<DefaultNumericTypes>(&e) {
+                    Ok(t) => {
+                        out.push(format!("node_free: v={:?} s={:?} i={:?} f={:?} n={:?} b={:?} t={:?} e={:?}", t.eval(), t.eval_string(), t.eval_int(), t.eval_float(), t.eval_number(), t.eval_boolean(), t.eval_tuple(), t.eval_empty()));
+                        let c = ctx(&f[2..]);
+                        out.push(format!("node_imm: v={:?} s={:?} i={:?} f={:?} n={:?} b={:?} t={:?} e={:?}", t.eval_with_context(&c), t.eval_string_with_context(&c), t.eval_int_with_context(&c), t.eval_float_with_context(&c), t.eval_number_with_context(&c), t.eval_boolean_with_context(&c), t.eval_tuple_with_context(&c), t.eval_empty_with_context(&c)));
+                        { let mut c = ctx(&f[2..]); out.push(format!("node_mut_v={:?} {}", t.eval_with_context_mut(&mut c), vars(&c))); }
+                        { let mut c = ctx(&f[2..]); out.push(format!("node_mut_s={:?} {}", t.eval_string_with_context_mut(&mut c), vars(&c))); }
+                        { let mut c = ctx(&f[2..]); out.push(format!("node_mut_i={:?} {}", t.eval_int_with_context_mut(&mut c), vars(&c))); }
+                        { let mut c = ctx(&f[2..]); out.push(format!("node_mut_f={:?} {}", t.eval_float_with_context_mut(&mut c), vars(&c))); }
+                        { let mut c = ctx(&f[2..]); out.push(format!("node_mut_n={:?} {}", t.eval_number_with_context_mut(&mut c), vars(&c))); }
+                        { let mut c = ctx(&f[2..]); out.push(format!("node_mut_b={:?} {}", t.eval_boolean_with_context_mut(&mut c), vars(&c))); }
+                        { let mut c = ctx(&f[2..]); out.push(format!("node_mut_t={:?} {}", t.eval_tuple_with_context_mut(&mut c), vars(&c))); }
+                        { let mut c = ctx(&f[2..]); out.push(format!("node_mut_e={:?} {}", t.eval_empty_with_context_mut(&mut c), vars(&c))); }
+                    },
+                    Err(e) => out.push(format!("node: {:?}", e)),
+                }
+                out.push(format!("free: v={:?} f={:?} b={:?} t={:?} e={:?}", eval(&e), eval_float(&e), eval_boolean(&e), eval_tuple(&e), eval_empty(&e)));
+                { let c = ctx(&f[2..]); out.push(format!("imm: s={:?} f={:?} b={:?} t={:?} e={:?}", eval_string_with_context(&e, &c), eval_float_with_context(&e, &c), eval_boolean_with_context(&e, &c), eval_tuple_with_context(&e, &c), eval_empty_with_context(&e, &c))); }
+                out.join(" | ")
+            },
+            // scripted use of a HashMapContext: steps separated by TAB, each `op:<hex arg>`
+            "api" => {
+                let mut c = HashMapContext::<DefaultNumericTypes>::new();
+                let mut saved: Option<HashMapContext> = None;
+                let mut out = Vec::new();
+                for step in &f[1..] {
+                    let (op, arg) = step.split_once(':').unwrap_or((step, ""));
+                    let arg = unhex(arg);
+                    match op {
+                        "disable" => { out.push(format!("{:?}", c.set_builtin_functions_disabled(true))); },
+                        "enable" => { out.push(format!("{:?}", c.set_builtin_functions_disabled(false))); },
+                        "clear" => c.clear(),
+                        "clearv" => c.clear_variables(),
+                        "clearf" => c.clear_functions(),
+                        "save" => saved = Some(c.clone()),
+                        "swap" => { if let Some(s2) = saved.take() { saved = Some(std::mem::replace(&mut c, s2)); } },
+                        "deff" => { let k: i64 = 1000; out.push(format!("{:?}", c.set_function(arg.clone(), Function::new(move |a| Ok(Value::Tuple(vec![Value::Int(k), a.clone()])))))); },
+                        "set" => { let (k, v) = arg.split_once('=').unwrap(); out.push(format!("{:?}", c.set_value(k.to_string(), val(v)))); },
+                        "eval" => out.push(format!("{:?}", eval_with_context_mut(&arg, &mut c))),
+                        "evalimm" => out.push(format!("{:?}", eval_with_context(&arg, &c))),
+                        "state" => out.push(format!("{} disabled={}", vars(&c), c.are_builtin_functions_disabled())),
+                        _ => out.push("?".into()),
+                    }
+                }
+                out.push(format!("{} disabled={}", vars(&c), c.are_builtin_functions_disabled()));
                 out.join(" | ")
             },
             "iter" => match build_operator_tree::<DefaultNumericTypes>(&unhex(f[1])) {
